@@ -9,7 +9,7 @@ PNET = 'pnet 0.33 accessors/constructors/checksum routines are assumed contracts
 CLAIMS = {
  'C01': dict(
    text='Verus proves, for every function under contract on the reply() path from masscanned::reply down to tcp::repl/udp::repl/icmp*::repl/arp::repl (bodies extracted verbatim), absence of panics: every index, slice, arithmetic operation, unwrap/expect and callee precondition (incl. pnet set_payload bounds and Debug-formatting obligations of log arguments, evaluated at every verbosity) and termination of every loop, for all frames <= 4096 bytes and all table states satisfying the representation invariant, which every function preserves. Ground: both automaton initialisers run to completion on the real binary.',
-   note='STAGED: the application responders behind proto::repl (HTTP, SSH, STUN, RPC, SMB, DNS, Gh0st, smack matcher) are not yet under contract; proto::repl is an assumed contract (listed in evidence as trusted stub). Loggers (console/logfmt) are represented by the MetaLogger shim. ' + PNET),
+   note='STAGED: proto::repl and the smack matcher are under contract; the application responders behind it (HTTP, SSH, STUN, RPC, SMB, DNS, Gh0st) are still assumed contracts (trusted stubs, listed in the evidence). Loggers (console/logfmt) are represented by the MetaLogger shim. ' + PNET),
  'C02': dict(
    text='Postconditions of layer_2::reply, get_authorized_eth_addr (loop invariant over the self-IP set), arp::repl, ipv4::repl, ipv6::repl, icmpv6::repl/nd_ns_repl: a reply exists only if dst MAC is in Auth(MAC,S), src IP not denied, EtherType/next protocol supported; with S configured the reply source IP and every advertised address is in S. Composed to the frame level in eth_reply_ok (masscanned::reply).',
    note=PNET + '; HashSet<IpAddr>/HashSet<MacAddr> obey the vstd key model (assumed)'),
@@ -34,6 +34,9 @@ CLAIMS = {
  'C09': dict(
    text='tcp::repl: table\' == table, or (PSH|ACK and ack == cookie+1 and cookie not present and dom\' == dom + {cookie}); add_tcb idempotent; all other layer functions leave the table unchanged.',
    note=PNET),
+ 'C10': dict(
+   text='Smack::inner_match/inner_match_shift7/search_next/search_next_end are proved memory-safe and EQUAL to a reference run (scan/next_spec/next_end_spec) over the compiled table for every well-formed table, input and offset (loop invariants, no bound); proto::repl is proved to identify by exactly that run from the stored per-flow state (TCP) or BASE_STATE followed by the END symbol (UDP) and to answer nothing through a signature-dispatched responder when the run reports no match. Ground: wf() and the id range are evaluated on the table dumped from the real binary, and the language of that table is compared with the signature set read from the current source by exhaustive product exploration over byte classes (297 product states).',
+   note='the product explorer (tools/ground.py, Python) is in the trusted base; lazy_static initialise-once semantics assumed (R3); the 8 known discrepancy classes (wildcard shadowing) are known findings, any other class is a violation; "answered by that protocol\'s responder" composes with responder contracts that are still assumed (trusted stubs listed in the evidence); segmentation lemma scan(a++b) not yet proved'),
  'C12': dict(
    text='Per-protocol clauses proved so far: ARP op != 1, ICMP type != 8, ICMPv6 type not in {128,135} or code != 0, TCP flags == SYN|ACK or RST or bare ACK => no reply (iff postconditions of the responders).',
    note='PARTIAL: DNS QR=1, STUN class, SMB reply flag, RPC reply and the reflection-chain bound are not yet under contract'),
@@ -55,7 +58,7 @@ def main():
          "engines": [
              {"name": "verus", "path": "tools/ (extract/splice/run), contracts/*.vspec, shim/, spec/, units/", "serves_properties": sorted(CLAIMS),
               "kind_free_text": "deductive verifier; contracts spliced onto functions extracted verbatim from /repo/src on every run"},
-             {"name": "ground", "path": "tools/ground.py, tools/replay.py", "serves_properties": ["C01", "C07", "C08"],
+             {"name": "ground", "path": "tools/ground.py, tools/replay.py", "serves_properties": ["C01", "C07", "C08", "C10"],
               "kind_free_text": "closed obligations and witness replay executed on the hook binary rebuilt from /repo"}],
          "checks": [], "not_applicable": [],
          "notes": "exit 2 from a check means undecided (lost extraction anchor, front-end error, resource limit, vacuous contract, unlisted assumption), never a violation"}
